@@ -198,9 +198,9 @@ func parseJSONPolygonCoords(
 		if !rcoords.Exists() {
 			return nil, nil, errCoordinatesMissing
 		}
-		if !rcoords.IsArray() {
-			return nil, nil, errCoordinatesInvalid
-		}
+	}
+	if !rcoords.IsArray() {
+		return nil, nil, errCoordinatesInvalid
 	}
 	rcoords.ForEach(func(key, value gjson.Result) bool {
 		if !value.IsArray() {
